@@ -56,7 +56,9 @@ func checkC14(c *ev.Ctx) {
 	outs := make([]string, len(procs))
 	// the processes run one after the other: each uses up to 32 goroutines itself
 	for i, p := range procs {
-		cmd := exec.Command(bin, "-seed", fmt.Sprint(c.Seed), "-rounds", fmt.Sprint(rounds))
+		// the two repeat processes run without the ticket counter: its atomic operations order
+		// the goroutines for the race detector and could hide a race (see cmd/vrace)
+		cmd := exec.Command(bin, "-seed", fmt.Sprint(c.Seed), "-rounds", fmt.Sprint(rounds), fmt.Sprintf("-tickets=%v", !strings.HasSuffix(p.tag, "b")))
 		cmd.Env = append(os.Environ(), fmt.Sprintf("GOMAXPROCS=%d", p.gmp), fmt.Sprintf("GORACE=halt_on_error=0 log_path=%s/race-%s", logdir, p.tag))
 		var ob, eb bytes.Buffer
 		cmd.Stdout, cmd.Stderr = &ob, &eb
